@@ -15,7 +15,10 @@ Fails(r) ==
       disabled == {i \in 1..Len(items) : items[i] = 2}
   IN
   IF ~s.ok THEN {"C12"} \* \cup {s.why}
-  ELSE IF ~d.ok THEN {"C12"}
+  \* a finished message the RFC 1035 decoder cannot read: names are the only thing that can make it fail once the
+  \* record boundaries are in place (a pointer that does not lead strictly backwards, a label that runs past the
+  \* end), so the C13 check claims this tag as well
+  ELSE IF ~d.ok THEN {"C12", "C12:undecodable"}
   ELSE
   LET opt == SelectSeq(d.ar, LAMBDA x : x.type = 41) IN
   Chk("C12",
